@@ -24,7 +24,9 @@ RULE = ("convexhull_mask: (1) integer-lattice clouds of 3..15 points (collinear 
         "rescaling of cloud and grid to offsets up to 2^30 / 1e7; project_grid input grids use the same axis styles. Every 2-D array argument "
         "(data and query coordinates of the array form as non-square 2-D arrays, meshgrid arrays, project_grid value arrays) comes in a "
         "randomly chosen memory layout (C, Fortran, transposed view of a transposed copy, strided view), easting and northing independently; "
-        "every third lattice cloud has int64/int32 coordinates; the model always sees the logical C-order sequence. "
+        "every third lattice cloud has int64/int32 coordinates; the model always sees the logical C-order sequence. About 40% of the mask "
+        "cases (all streams; array and grid form) carry one or two EXTRA coordinate arrays on the data (non-coplanar heights) and / or the query "
+        "(constant or varying): the mask must be the two-coordinate mask; 30% of the project_grid inputs carry an extra 2-D coordinate. "
         "project_grid: 5x6..8x9 grids with 0..4 scattered NaN holes (incl. corners) and/or NaN holes blanking one or two COMPLETE rows and columns (edge and interior), names foo/None/custom, projections axis-aligned affine (dyadic "
         "coefficients, incl. negative scales and offsets up to 1e6), separable monotone cubic and Mercator-like, non-separable quadratic and "
         "rotation; methods linear/nearest/cubic x antialias on/off x arguments none/shape/spacing/region(+shape|spacing); the projection "
@@ -121,6 +123,32 @@ def layout_of(a):
     return "%s%s" % (list(a.shape), "C" if a.flags["C_CONTIGUOUS"] else ("F" if a.flags["F_CONTIGUOUS"] else "strided"))
 
 
+def extra_coords(rnd, data_shape, query_shape, force=False):
+    """extra (vertical, ...) coordinate arrays for the data and / or the query: one or two per side, non-coplanar heights on
+    the data, constant or varying on the query.  Only easting and northing may influence the mask.
+    returns (data_extras, query_extras, description)"""
+    if rnd is None or not (force or rnd.random() < 0.4):
+        return (), (), None
+    side = rnd.choice(["data", "query", "both", "both"])
+    k = rnd.choice([1, 1, 2])
+    nd = int(np.prod(data_shape))
+    dex, qex = (), ()
+    if side in ("data", "both"):
+        dex = tuple(np.array([rnd.choice([-50.0, 3.0, 17.5, 1000.0]) * rnd.random() + 7 * ((i * i) % 5) for i in range(nd)]).reshape(data_shape)
+                    for _ in range(k))
+    if side in ("query", "both"):
+        def one():
+            if rnd.random() < 0.5:
+                return np.full(query_shape, rnd.choice([0.0, 5.0, -120.0, 1e4]))
+            return np.array([rnd.uniform(-100, 100) for _ in range(int(np.prod(query_shape)))]).reshape(query_shape)
+        qex = tuple(one() for _ in range(k))
+    return dex, qex, {"data_extras": [a.tolist() for a in dex], "query_extras": [a.tolist() for a in qex]}
+
+
+def raised_case(inp, ex, kind, repro=""):
+    return Case(inp, {"raised": "%s: %s" % (type(ex).__name__, str(ex)[:300])}, "Vboth", repro, kind)
+
+
 def mask_case(vd, dx, dy, qx, qy, kind, rnd=None, dtype=float):
     """[rnd] given: data and query arrays become non-square 2-D arrays where their size allows (same shape for easting and
     northing of a pair) with independently chosen memory layouts; the model sees the logical C-order sequence"""
@@ -135,7 +163,12 @@ def mask_case(vd, dx, dy, qx, qy, kind, rnd=None, dtype=float):
             if sh is not None:
                 qx, qy = qx.reshape(sh), qy.reshape(sh)
         dx, dy, qx, qy = [core.relayout(a, rnd) for a in (dx, dy, qx, qy)]
-    obs = vd.convexhull_mask((dx, dy), coordinates=(qx, qy))
+    dex, qex, exd = extra_coords(rnd, dx.shape, qx.shape)
+    try:
+        obs = vd.convexhull_mask((dx, dy) + dex, coordinates=(qx, qy) + qex)
+    except Exception as ex:     # a valid call must not raise
+        return raised_case({"fn": "convexhull_mask", "data": [dx.tolist(), dy.tolist()], "query": [qx.tolist(), qy.tolist()],
+                            "extras": exd, "dtype": np.dtype(dtype).name}, ex, kind)
     ok = obs.shape == qx.shape and obs.dtype == bool
     o = [bool(b) for b in np.asarray(obs).ravel(order="C")] if ok else []
     term = "c16_mask %s %s %s %s %s" % (dl(dx.ravel(order="C")), dl(dy.ravel(order="C")), dl(qx.ravel(order="C")), dl(qy.ravel(order="C")), bl(o))
@@ -143,8 +176,10 @@ def mask_case(vd, dx, dy, qx, qy, kind, rnd=None, dtype=float):
     repro = ("import verde, numpy as np; # layouts (data e, n, query e, n): %s dtype %s\n"
              "print(verde.convexhull_mask((np.array(%r), np.array(%r)), coordinates=(np.asfortranarray(np.array(%r)), np.array(%r))))"
              % (lay, np.dtype(dtype).name, dx.tolist(), dy.tolist(), qx.tolist(), qy.tolist()))
+    if exd is not None:
+        repro = "# extra coordinates appended to the tuples: %r\n" % (exd,) + repro
     return Case({"fn": "convexhull_mask", "data": [dx.tolist(), dy.tolist()], "query": [qx.tolist(), qy.tolist()], "layouts": lay,
-                 "dtype": np.dtype(dtype).name}, o, term, repro, kind)
+                 "dtype": np.dtype(dtype).name, "extras": exd}, o, term, repro, kind)
 
 
 def lattice_cloud(rnd, n, size=8):
@@ -207,10 +242,15 @@ def mask_scaled_case(vd, pts, qs, sx, ox, sy, oy, kind, rnd=None):
     if rnd is not None:     # non-square 2-D query arrays (same shape for the pair), independent memory layouts
         sh = shape2(bqx.size, rnd)
         shape = sh if sh is not None else bqx.shape
-        obs_base = vd.convexhull_mask((core.relayout(bx, rnd), core.relayout(by, rnd)),
-                                      coordinates=(core.relayout(bqx.reshape(shape), rnd), core.relayout(bqy.reshape(shape), rnd)))
-        obs = vd.convexhull_mask((core.relayout(dx, rnd), core.relayout(dy, rnd)),
-                                 coordinates=(core.relayout(qx.reshape(shape), rnd), core.relayout(qy.reshape(shape), rnd)))
+        dex, qex, exd = extra_coords(rnd, bx.shape, tuple(shape))
+        try:
+            obs_base = vd.convexhull_mask((core.relayout(bx, rnd), core.relayout(by, rnd)),
+                                          coordinates=(core.relayout(bqx.reshape(shape), rnd), core.relayout(bqy.reshape(shape), rnd)))
+            obs = vd.convexhull_mask((core.relayout(dx, rnd), core.relayout(dy, rnd)) + dex,
+                                     coordinates=(core.relayout(qx.reshape(shape), rnd), core.relayout(qy.reshape(shape), rnd)) + qex)
+        except Exception as ex:
+            return raised_case({"fn": "convexhull_mask-scaled", "base_data": [bx.tolist(), by.tolist()], "extras": exd,
+                                "base_query": [bqx.tolist(), bqy.tolist()], "scale_offset": [sx, ox, sy, oy]}, ex, kind)
         if obs.shape != tuple(shape) or obs_base.shape != tuple(shape):
             obs = obs_base = np.zeros(0, dtype=bool)
         obs_base, obs = np.asarray(obs_base).ravel(order="C"), np.asarray(obs).ravel(order="C")
@@ -224,7 +264,7 @@ def mask_scaled_case(vd, pts, qs, sx, ox, sy, oy, kind, rnd=None):
              "print(verde.convexhull_mask((%r*bx+%r, %r*by+%r), coordinates=(%r*qx+%r, %r*qy+%r)))"
              % ([bx.tolist(), by.tolist(), bqx.tolist(), bqy.tolist()], sx, ox, sy, oy, sx, ox, sy, oy))
     return Case({"fn": "convexhull_mask-scaled", "base_data": [bx.tolist(), by.tolist()], "base_query": [bqx.tolist(), bqy.tolist()],
-                 "scale_offset": [sx, ox, sy, oy]},
+                 "scale_offset": [sx, ox, sy, oy], "extras": exd if rnd is not None else None},
                 {"mask_base": [bool(b) for b in obs_base], "mask": [bool(b) for b in obs]}, term, repro, kind)
 
 
@@ -237,10 +277,16 @@ def mask_forms_case(vd, dx, dy, east, north, dims, kind, rnd=None):
         dx, dy = laid_out(dx, rnd), laid_out(dy, rnd, as2d=False)
         if dx.shape != dy.shape:
             dy = core.relayout(dy.reshape(dx.shape), rnd)
-    arr = vd.convexhull_mask((dx, dy), coordinates=coords)
+    dex, qex, exd = extra_coords(rnd, np.shape(dx), np.shape(coords[0]))
+    inp0 = {"fn": "convexhull_mask-forms", "data": [np.asarray(dx).tolist(), np.asarray(dy).tolist()], "easting": east.tolist(),
+            "northing": north.tolist(), "dims": list(dims), "extras": exd}
     vals = np.arange(1.0, east.size * north.size + 1).reshape(north.size, east.size)
     ds = xr.Dataset({"scalars": (list(dims), vals)}, coords={dims[1]: east, dims[0]: north})
-    out = vd.convexhull_mask((dx, dy), grid=ds)
+    try:
+        arr = vd.convexhull_mask((dx, dy) + dex, coordinates=tuple(coords) + qex)
+        out = vd.convexhull_mask((dx, dy) + dex, grid=ds)      # the grid form takes its two coordinates from the grid
+    except Exception as ex:
+        return raised_case(inp0, ex, kind)
     ov = out["scalars"].values
     kept = ~np.isnan(ov)
     dims_ok = (tuple(out["scalars"].dims) == tuple(dims) and np.array_equal(out[dims[1]].values, east)
@@ -254,8 +300,9 @@ def mask_forms_case(vd, dx, dy, east, north, dims, kind, rnd=None):
              "g=xr.Dataset({'scalars': (%r, np.ones((n.size, e.size)))}, coords={%r: e, %r: n}); "
              "print(verde.convexhull_mask(d, grid=g).scalars.values)" % (dx.tolist(), dy.tolist(), east.tolist(), north.tolist(),
                                                                          list(dims), dims[1], dims[0]))
-    return Case({"fn": "convexhull_mask-forms", "data": [dx.tolist(), dy.tolist()], "easting": east.tolist(), "northing": north.tolist(),
-                 "dims": list(dims)}, {"array_form": arr_rows, "grid_form_kept": kept_rows, "dims_ok": dims_ok}, term, repro, kind)
+    if exd is not None:
+        repro = "# extra coordinates appended to the data / query tuples: %r\n" % (exd,) + repro
+    return Case(inp0, {"array_form": arr_rows, "grid_form_kept": kept_rows, "dims_ok": dims_ok}, term, repro, kind)
 
 
 def random_cloud_case(vd, rnd, kind):
@@ -396,6 +443,8 @@ def make_grid(rnd, nprng, ny, nx, name, dims, holes, smooth, even=False, lines=F
             v[:, j] = np.nan
     v = core.relayout(v, rnd)       # memory layout of the value array must not matter
     da = xr.DataArray(v, coords={dims[0]: north, dims[1]: east}, dims=dims, name=name)
+    if rnd.random() < 0.3:      # an extra non-dimensional (e.g. height) coordinate on the input grid must change nothing
+        da = da.assign_coords(upward=(tuple(dims), nprng.normal(size=(ny, nx)) * 100.0))
     return da, east, north, v
 
 
